@@ -83,6 +83,10 @@ fn id_with_lcp(rng: &mut Rng, me: &[u8], d: usize, near: bool) -> Vec<u8> {
 fn mk_addr(rng: &mut Rng, pool: u64) -> String {
     let i = rng.below(pool);
     if rng.chance(1, 6) {
+        if rng.chance(1, 4) {
+            let k = rng.below(3);
+            return format!("v6:{}:{}", hex(&structured_v6(k, [10, 0, (i >> 8) as u8, i as u8])), 6881 + i % 3);
+        }
         let mut ip = vec![0x20u8, 0x01, 0x0d, 0xb8];
         ip.extend_from_slice(&[0u8; 10]);
         ip.extend_from_slice(&(i as u16).to_be_bytes());
